@@ -50,7 +50,8 @@ HARNESSES = [
   'bounds': {t: {'defs': {'KMAX': k, 'P1': p1, 'P2LO': lo, 'P2HI': hi}, 'unwind': 60,
                  'unwindset': dict(DIAG_LOOPS, **{'_ZL13make_patternsv.%d' % q: 1100 for q in range(5)}), 'cap': 900}
              for t in ('quick', 'thorough')}}
- for k, p1, lo, hi in [(3, p1, 0, 5) for p1 in range(5)] + [(4, p1, lo, lo + 5) for p1 in range(15) for lo in (0, 5, 10)]
+ # 4 remaps (15x15 partition pairs) were tried: one query of 5 pairs did not finish symbolic execution in 15 min
+ for k, p1, lo, hi in [(3, p1, 0, 5) for p1 in range(5)]
 ]
 
 PROPERTY_INFO = {'C03': {'level': 'model_checking',
